@@ -907,12 +907,31 @@ func (e *Engine) opSigners() {
 		s0 := time.Now().Unix()
 		sig, serr := s.Sign(nil, data)
 		s1 := time.Now().Unix()
-		if as, ok := s.(ssh.AlgorithmSigner); ok && serr == nil && strings.Contains(s.PublicKey().Type(), "rsa") {
-			for _, alg := range []string{ssh.KeyAlgoRSASHA256, ssh.KeyAlgoRSASHA512} {
+		if as, ok := s.(ssh.AlgorithmSigner); ok && serr == nil {
+			// what an SSH client does for public-key authentication: it names the algorithm of the key underneath
+			// (for RSA one of the three that go with it); the empty name means the default
+			base := s.PublicKey().Type()
+			if pk, perr := ssh.ParsePublicKey(s.PublicKey().Marshal()); perr == nil {
+				if c, ok := pk.(*ssh.Certificate); ok {
+					base = c.Key.Type()
+				}
+			}
+			algs := []string{base, ""}
+			if base == ssh.KeyAlgoRSA {
+				algs = []string{ssh.KeyAlgoRSASHA256, ssh.KeyAlgoRSASHA512, base, ""}
+			}
+			for _, alg := range algs {
 				sig2, e2 := as.SignWithAlgorithm(nil, data, alg)
+				want := alg
+				if want == "" {
+					want = base
+				}
 				if e2 != nil {
+					if _, again := s.Sign(nil, data); again != nil {
+						break // the identity stopped being usable in between (a lapsing certificate): nothing to compare
+					}
 					e.disc([]string{"C10"}, "signer-sign-with-algorithm-fails", fmt.Sprintf("%s %s: %v", e.describe(string(s.PublicKey().Marshal())), alg, e2))
-				} else if sig2.Format != alg || s.PublicKey().Verify(data, sig2) != nil {
+				} else if sig2.Format != want || s.PublicKey().Verify(data, sig2) != nil {
 					e.disc([]string{"C10"}, "signer-signature-with-algorithm-does-not-verify", fmt.Sprintf("%s %s: format %q", e.describe(string(s.PublicKey().Marshal())), alg, sig2.Format))
 				} else {
 					e.St.SignsVerified++
